@@ -401,6 +401,7 @@ fn gen_chain(rng: &mut Rng, tech: &str, arch: &str, os: &str) -> Option<String> 
         mods: world.mods,
         syms: world.syms,
         symraw: vec![],
+        be: false,
     };
     Some(case.render())
 }
@@ -1165,6 +1166,7 @@ fn gen_mixed(rng: &mut Rng, tech: &str, arch: &str, os: &str) -> Option<String> 
         mods: world.mods,
         syms: world.syms,
         symraw: vec![],
+        be: false,
     };
     Some(case.render())
 }
